@@ -168,7 +168,12 @@ def m2(ctx, al, module, cfg):
                                    observed=[repr(g) for g in obs["vals"][:n + 1]]))
             # open/closed state after n pulls (index n of the flags; the last flag is "after exhaustion")
             if st["st"] == "open" and not obs["open"][n]:
-                ctx.violation("C18:wav-closed-early", dict(desc, after_samples=n))
+                # C18 promises the file is closed ONCE THE STREAM IS EXHAUSTED - a bound on how long it may stay
+                # open, not on how early a reader that has everything in memory may close it (the samples above
+                # are what has to be right): diagnostics
+                ctx.extra["notes"] = ctx.extra.get("notes", 0) + 1
+                if ctx.extra["notes"] <= 2:
+                    ctx.log("note (not demanded by C18): file already closed after %d of its samples" % n)
             if st["st"] == "closed" and obs["open"][-1]:
                 ctx.violation("C18:wav-not-closed", dict(desc, after_samples=n))
             if nstates % 2999 == 0:
